@@ -273,6 +273,91 @@ def check_unknown_lengths(ctx, prog, fns, tag, len_suffix="enumerator_len"):
     return n
 
 
+LEN_SOURCES = ("::enumerator_len", "minijinja::value::Value::len", "::size_hint", "::len_hint")
+CAPACITY_SINKS = ("::with_capacity", "::reserve", "::reserve_exact", "::untrusted_size_hint", "::with_capacity_and_hasher",
+                  "::try_reserve")
+
+
+def check_defaulted_lengths(ctx, prog, tag, rule="C07.V15.defaulted-unknown-length-only-sizes-buffers"):
+    """V15 (round 10, seed C07-10): `Value::len()` / `enumerator_len()` answer None for a lazy iterable.  Replacing that
+    None by a number (`unwrap_or(0)`, `unwrap_or_default()`) is harmless as a capacity hint and wrong everywhere else:
+    arithmetic or a decision built on it treats every iterable of unknown length as empty, so the same items give another
+    result as a lazy iterable than as a list (batch padding computed up front; negative slice bounds of an iterable).
+    The defaulted number may flow (through copies, casts, arithmetic) into capacity arguments only."""
+    from ..facts import op_place as _opl
+    n = 0
+    scope = [f for f in prog.fns.values() if f.crate in ("minijinja", "minijinja_contrib") and (
+        f.loc.f.endswith(("filters.rs", "functions.rs", "tests.rs", "value/ops.rs", "value/mod.rs", "pycompat.rs", "globals.rs"))
+        or "/filters/" in f.loc.f)]
+    for f in scope:
+        for c in f.calls():
+            short_ = c.name.rsplit("::", 1)[-1]
+            if short_ not in ("unwrap_or", "unwrap_or_default") or not c.name.startswith("core::option::Option"):
+                continue
+            if short_ == "unwrap_or" and not (len(c.args) == 2 and "c" in c.args[1]):
+                continue
+            srcs = [o for o in flow.origins(f, c.args[0], through_calls=lambda k: 0 if k.name.endswith(("::map", "::copied", "::cloned")) else None)]
+            which = [o.call.name for o in srcs if o.kind == "call" and o.call.name.endswith(LEN_SOURCES)]
+            if not which or c.dest is None or "p" in c.dest:
+                continue
+            if not (f.locals[c.dest["l"]].get("prim") or "").startswith(("usize", "u64", "u32", "i64")):
+                continue
+            # a value whose kind was tested to be one that always knows its length (a sequence, a string) is not lazy
+            sized = False
+            for gf in flow.guard_facts(prog, f, c.bb):
+                if gf[0] == "matches" and gf[1] == "minijinja::value::ValueKind" and gf[3] is True and "Iterable" not in gf[2]:
+                    sized = True
+            if sized:
+                continue
+            n += 1
+            tainted = {c.dest["l"]}
+            uses = []
+            grew = True
+            while grew:
+                grew = False
+                for bb, i, st in f.all_stmts():
+                    if st["k"] != "assign":
+                        continue
+                    rv = st["rv"]
+                    ops_ = [rv[k_] for k_ in ("op", "a", "b") if isinstance(rv.get(k_), dict)] + [x for x in rv.get("ops", []) if isinstance(x, dict)]
+                    hit = any(_opl(o) is not None and _opl(o)["l"] in tainted for o in ops_)
+                    if rv["k"] in ("ref",) and rv["place"]["l"] in tainted:
+                        hit = True
+                    if hit:
+                        if rv["k"] == "agg" and rv.get("closure"):
+                            uses.append(("captured by a closure", bb))
+                            continue
+                        l_ = st["place"]["l"]
+                        if l_ not in tainted and l_ != 0:
+                            tainted.add(l_)
+                            grew = True
+                        elif l_ == 0:
+                            uses.append(("returned", bb))
+                for d in f.calls():
+                    if d.bb == c.bb and d.name == c.name:
+                        continue
+                    if any(_opl(a) is not None and _opl(a)["l"] in tainted for a in d.args):
+                        if d.name.endswith(CAPACITY_SINKS):
+                            if d.name.endswith("untrusted_size_hint") and d.dest is not None and "p" not in d.dest and d.dest["l"] not in tainted:
+                                tainted.add(d.dest["l"])
+                                grew = True
+                            continue
+                        uses.append((d.name.rsplit("::", 2)[-2] + "::" + d.name.rsplit("::", 1)[-1] if d.name.count("::") > 1 else d.name, d.bb))
+                for sb in sorted(f.reachable):
+                    t = f.term(sb)
+                    if t["k"] == "switch":
+                        pl = _opl(t["discr"])
+                        if pl is not None and pl["l"] in tainted:
+                            uses.append(("decides a branch", sb))
+                    if t["k"] == "assert":
+                        pass
+            uses = sorted(set(uses))
+            ctx.ob(rule, "%s%s|%s" % (tag, f.path, which[0].rsplit("::", 1)[-1]), not uses,
+                   "a length that is unknown for lazy iterables is replaced by a default and then used for more than a capacity "
+                   "hint: %s" % [u[0] for u in uses], f.where(uses[0][1] if uses else c.bb))
+    return n
+
+
 def check_object_pairs(ctx, prog, tag):
     """V1e: the variant-level domain treats all objects as one representation; inside it `==` dispatches on the pair of
     `ObjectRepr`s (map / sequence / iterable / plain).  `cmp` orders by `kind()` first, so a pair of object
@@ -1046,6 +1131,8 @@ def run(ctx):
         check_inline_padding(ctx, prog, tag)
         n12 = check_dedup(ctx, prog, tag)
         n14 = check_group_order(ctx, prog, tag)
+        n15 = check_defaulted_lengths(ctx, prog, tag)
+        ctx.count("C07.V15 defaulted lengths" + tag, n15)
         if prog.has_fn("minijinja::filters::builtins::groupby"):
             ctx.floor("C07.V14 grouping comparisons after a sort" + tag, n14, 1)
         n13 = check_string_reprs(ctx, prog, tag, "C07.V13.string-representations-are-handled-alike",
